@@ -185,9 +185,16 @@ def run_case(case):
     with ctx.suspended(), warnings.catch_warnings():
         warnings.simplefilter("ignore")
         n = int(rng.integers(1, 5))
+        u = rng.random()
+        radius = 1.0
+        if u < 0.3:
+            radius = float(10.0 ** rng.uniform(-2, 1))
+        elif u < 0.45:
+            # tiny sets: absolute displacements below 1e-8 (any absolute
+            # tolerance in the solver's bookkeeping would show up here)
+            radius = float(10.0 ** rng.uniform(-10, -8))
         h = drive.History(rng, n=n, mc_ub=int(rng.integers(0, 2)), mc_eq=0,
-                          radius=float(10.0 ** rng.uniform(-2, 1))
-                          if rng.random() < 0.3 else 1.0)
+                          radius=radius)
         itp = h.itp
         nn = h.npt + n + 1
         check_fresh(h, jd, "initial build")
